@@ -531,7 +531,9 @@ int main(void) {
             char what[32];
             if (fscanf(in, "%31s", what) != 1) return 2;
             if (!strcmp(what, "stablein")) {
-                int mode, endop, nbw; size_t n1, n2, r1, r2, regen = 0, k; ZSTD_CCtx* x; ZSTD_inBuffer ib; ZSTD_outBuffer ob; BYTE *A, *B; int same = -1;
+                /* mode 3 (round 3): ZSTD_CCtx_reset(session_only) between the deferred call and a call on buffer B */
+                int mode, endop, nbw; size_t n1, n2, r1, r2, regen = 0, k, nc2; ZSTD_CCtx* x; ZSTD_inBuffer ib; ZSTD_outBuffer ob; BYTE *A, *B; int same = -1, st2;
+                const BYTE* expect; size_t expectLen;
                 if (fscanf(in, "%d %d %d %zu %zu", &mode, &endop, &nbw, &n1, &n2) != 5) return 2;
                 need_arena(4 * (n1 + n2) + 400000);
                 A = srcArena + n1 + n2 + 4096; B = A + 2 * (n1 + n2) + 8192;
@@ -541,19 +543,22 @@ int main(void) {
                 ZSTD_CCtx_setParameter(x, ZSTD_c_stableInBuffer, 1); ZSTD_CCtx_setParameter(x, ZSTD_c_nbWorkers, nbw);
                 ib.src = A; ib.size = n1; ib.pos = 0; ob.dst = dstArena; ob.size = arenaCap; ob.pos = 0;
                 r1 = ZSTD_compressStream2(x, &ob, &ib, ZSTD_e_continue);
+                expect = A; expectLen = n1 + n2;
                 if (mode == 0) { ib.src = B; ib.size = n2; ib.pos = 0; }
                 else if (mode == 1) { ib.src = A; ib.size = n1 + n2; ib.pos = 0; }
+                else if (mode == 3) { ZSTD_CCtx_reset(x, ZSTD_reset_session_only); ib.src = B; ib.size = n2; ib.pos = 0; expect = B; expectLen = n2; }
                 else { ib.src = A; ib.size = n1 + n2; }
                 r2 = ZSTD_compressStream2(x, &ob, &ib, (ZSTD_EndDirective)endop);
+                st2 = x->streamStage != zcss_init; nc2 = x->stableIn_notConsumed;
                 if (!ZSTD_isError(r2) && endop != 2) r2 = ZSTD_compressStream2(x, &ob, &ib, ZSTD_e_end);
                 if (!ZSTD_isError(r2)) {
                     BYTE* back = (BYTE*)malloc(4 * (n1 + n2) + 1024); size_t const d = ZSTD_decompress(back, 4 * (n1 + n2) + 1024, dstArena, ob.pos);
                     regen = ZSTD_isError(d) ? (size_t)-1 : d;
-                    same = (!ZSTD_isError(d) && d == n1 + n2 && memcmp(back, A, n1 + n2) == 0);
+                    same = (!ZSTD_isError(d) && d == expectLen && memcmp(back, expect, expectLen) == 0);
                     free(back);
                 }
-                printf("X stablein %d %d %d %zu %zu %d %d %d %zu %d %d\n", mode, endop, nbw, n1, n2, ZSTD_isError(r1) ? (int)ZSTD_getErrorCode(r1) : 0,
-                       ZSTD_isError(r2) ? (int)ZSTD_getErrorCode(r2) : 0, (int)ZSTD_error_stabilityCondition_notRespected, regen, same, (int)ZSTD_BLOCKSIZE_MAX);
+                printf("X stablein %d %d %d %zu %zu %d %d %d %zu %d %d %d %zu\n", mode, endop, nbw, n1, n2, ZSTD_isError(r1) ? (int)ZSTD_getErrorCode(r1) : 0,
+                       ZSTD_isError(r2) ? (int)ZSTD_getErrorCode(r2) : 0, (int)ZSTD_error_stabilityCondition_notRespected, regen, same, (int)ZSTD_BLOCKSIZE_MAX, st2, nc2);
                 ZSTD_freeCCtx(x);
             } else if (!strcmp(what, "copyopen")) {
                 size_t n, r0, r1, r2, r3, d = 0; int st1, st2; ZSTD_CCtx *x, *s; ZSTD_inBuffer ib; ZSTD_outBuffer ob; int withEnd;
